@@ -1,5 +1,5 @@
 /*UNIT
-{"props": ["C04"], "src": ["lib/ipcs.c"], "mode": "plain", "kind": "proved",
+{"props": ["C04", "C03"], "src": ["lib/ipcs.c"], "mode": "plain", "kind": "proved",
  "functions": ["qb_ipcs_disconnect", "qb_ipcs_connection_unref (inlined)", "qb_ipcs_unref (inlined)"],
  "stubs": ["connection_closed / connection_destroyed callbacks (recorded, closed returns any value)", "funcs.disconnect (recorded)", "poll_fns.job_add (recorded, any result)", "remove_tempdir (counted)", "qb_atomic_int_* (sequential)", "free (observed)"],
  "drops": ["qb_util_log/qb_util_perror diagnostics compiled out (stubs/nolog.h)"],
